@@ -84,6 +84,16 @@ func c14Works(rng *rand.Rand, n int) []c14Work {
 		_, d := pickData(rng, max)
 		ws = append(ws, c14Work{[]string{"xz", "xz", "lzma2", "lzma"}[i%4], c, d})
 	}
+	// regime switches: several raw chunks with compressed chunks in between (state snapshots, raw-chunk readers)
+	for i := 0; i < 4; i++ {
+		c := xzCfg{LC: 3, PB: 2, DictCap: []int{65536, 1 << 20}[i%2], BufSize: 4096}
+		var d []byte
+		for k := 0; k < 2; k++ {
+			d = append(d, genRandom(rng, 66000+rng.Intn(6000))...)
+			d = append(d, genText(rng, 3000+rng.Intn(20000))...)
+		}
+		ws = append(ws, c14Work{[]string{"xz", "lzma2"}[i%2], c, d})
+	}
 	return ws
 }
 
